@@ -403,6 +403,14 @@ func init() {
 				pf.AckStall = []int{30, 60}
 				pf.BatchPct = 0
 				pf.Ratio = []int{0, 50, 100}
+				if r.Chance(40) {
+					// ... or one that hands some deliveries out without an acknowledgement id:
+					// they are jobs like the others and keep their place (one at a time here, so
+					// that the start order is the dispatch order)
+					pf.Conc = []int{1}
+					pf.AckStall = nil
+					pf.NoAckID = []int{30, 60}
+				}
 			}
 			huge := 0
 			hn := map[bool]int{false: 600, true: 300}[tier == "thorough"]
